@@ -200,7 +200,7 @@ func genSpec(p *Program, spec string, callFilter string) {
 		fmt.Printf("//   $%d = %s %s\n", i, prm.Name(), typeStr(prm.Type()))
 	}
 	fmt.Printf("{Fn: %q,\n Guards: []G{\n", spec)
-	gs := a.Guards()
+	gs := a.OwnGuards()
 	sort.Slice(gs, func(i, j int) bool { return gs[i].If.Pos() < gs[j].If.Pos() })
 	for _, g := range gs {
 		fmt.Printf("  {%q, %q}, // %s\n", "", g.String(), p.Pos(g.If.Cond.Pos()))
